@@ -80,6 +80,10 @@ def gen(ctx):
             continue
         big_done.add(kind)
         data[a].append(IO.fmt_dat(IO.gen_dat(inf, rnd, "narrowing", maxcells=rnd.choice([1200, 1800, 2600]), ext_pool=[5, 6, 7, 9, 11, 13])))
+    # a payload beyond a megabyte of an odd cell width, loaded at the other precision (staging blocks do not end on cell boundaries)
+    for a in sorted(data):
+        if stacks[a] == [["array", "f64", 3]] or (not ctx.quick and stacks[a] == [["array", "f32", 3]]):
+            data[a].append(IO.fmt_dat(IO.gen_dat(infos[a], rnd, "narrowing", maxcells=400000, ext_pool=[90001])))
     nvals = 100000 if ctx.quick else 4000000
     vals = [IO.narrow_value(rnd) for _ in range(nvals)]
     wvals = [rnd.choice([rnd.getrandbits(32), rnd.choice(IO.F32_SPECIAL), rnd.getrandbits(23) | (rnd.getrandbits(1) << 31),
